@@ -152,6 +152,22 @@ def r_transl(ctx):
 # R-LEAFREG
 # ---------------------------------------------------------------------------------------------------
 def r_leafreg(ctx):
+    """Decided by unrolling the constructors and the post-solve assignment (rules/leafprog.py); the shape rules below are the fallback for a
+    routine that leaves the interpreter's fragment."""
+    from . import leafprog
+    try:
+        leafprog.r_leaf_creation(ctx)
+    except AnalysisError as ex:
+        ctx.notes.append("R-LEAFREG: %s -- shape rules applied instead" % ex)
+        _leafreg_ctor_shape(ctx)
+    try:
+        leafprog.r_assignment_program(ctx)
+    except AnalysisError as ex:
+        ctx.notes.append("R-LEAFREG: %s -- shape rules applied instead" % ex)
+        _leafreg_assign_shape(ctx)
+
+
+def _leafreg_ctor_shape(ctx):
     repo = ctx.repo
     for cname, reg in (("Point", "list_of_leaf_points"), ("Expression", "list_of_leaf_expressions")):
         init = repo.method(cname, "__init__")
@@ -179,6 +195,10 @@ def r_leafreg(ctx):
             if ok and len(nonleaf_counter) != 1:
                 ok, msg = False, "a derived object does not get index None"
         ctx.ob("R-LEAFREG", "%s.__init__::leaf creation lock-step" % cname, ok, msg, loc(init, init))
+
+
+def _leafreg_assign_shape(ctx):
+    repo = ctx.repo
     # post-solve assignment: whole registries, own indices
     pep = common.pep_class(repo)
     fn = None
